@@ -65,7 +65,7 @@ class Store:
                 os.makedirs(r)
         paths = ["a", "b"]
         if kind == "ns":
-            paths = ["a", "b", "u1/a", "u1/b", "u2/a", "u2/b"]
+            paths = ["a", "b", "u1/a", "u1/b", "u2/a", "u2/b", "0/a", "0/b"]
         for p in paths:
             self.write(p, 0)
         if kind == "choice":
@@ -75,26 +75,26 @@ class Store:
         if kind == "fs":
             self._write_file(self.root2, "a", "<second-a>", 0)
 
-    def _write_file(self, root: str, path: str, text: str, ver: int) -> None:
+    def _write_file(self, root: str, path: str, text: str, ver: int, backwards: bool = False) -> None:
         full = os.path.join(root, path)
         os.makedirs(os.path.dirname(full), exist_ok=True)
         with open(full, "w", encoding="utf-8") as fd:
             fd.write(text)
-        t = BASE_MTIME + 10 * ver
+        t = BASE_MTIME + (-10 if backwards else 10) * ver
         os.utime(full, (t, t))
 
-    def write(self, path: str, ver: int) -> None:
+    def write(self, path: str, ver: int, backwards: bool = False) -> None:
         self.versions[path] = ver
         text = body(path, ver)
         if self.kind == "fs":
-            self._write_file(self.root1, path, text, ver)
+            self._write_file(self.root1, path, text, ver, backwards)
         elif self.kind == "choice" and path in self.d2 and path not in self.d1:
             self.d2[path] = text
         else:
             self.d1[path] = text
 
-    def edit(self, path: str) -> None:
-        self.write(path, self.versions[path] + 1)
+    def edit(self, path: str, backwards: bool = False) -> None:
+        self.write(path, self.versions[path] + 1, backwards)
 
 
 class NSLoader(BaseLoader):
@@ -108,7 +108,8 @@ class NSLoader(BaseLoader):
         ns = kwargs.get(NSKEY)
         if ns is None and context is not None:
             ns = context.globals.get(NSKEY)
-        path = f"{ns}/{template_name}" if ns else template_name
+        # a namespace is any value that was given, including falsy ones such as the integer 0
+        path = f"{ns}/{template_name}" if ns is not None else template_name
         try:
             text = self.store.d1[path]
         except KeyError as err:
@@ -182,7 +183,9 @@ class World:
         if act.get("globals") is not None:
             kw["globals"] = dict(act["globals"])
         ns = act.get("ns")
-        if ns and ns.startswith("kw:"):
+        if ns == "kw:0":
+            kw[NSKEY] = 0  # a falsy namespace value (e.g. user id 0)
+        elif ns and ns.startswith("kw:"):
             kw[NSKEY] = ns[3:]
         elif ns and ns.startswith("ctx:"):
             kw["context"] = liquid.RenderContext(env.from_string(""), globals={NSKEY: ns[4:]})
@@ -208,7 +211,7 @@ class World:
 
     def apply(self, act: dict[str, Any], *, replaying: bool = False) -> Optional[tuple[U.Outcome, U.Outcome]]:
         if act["op"] == "edit":
-            self.store.edit(act["path"])
+            self.store.edit(act["path"], bool(act.get("backwards")))
             return None
         self.env.loader = self.loader
         got = self.do_request(self.env, act)
@@ -239,6 +242,10 @@ def model_step(cfg: dict[str, Any], state: Any, act: dict[str, Any]) -> Any:
     versions, cache = dict(state[0]), list(state[1])
     if act["op"] == "edit":
         versions[act["path"]] = versions.get(act["path"], 0) + 1
+        if act.get("backwards"):
+            # an edit that moved the modification time backwards leads to a different state (its
+            # consequences must be explored from a history that contains it)
+            versions[act["path"] + "#older-mtime"] = versions.get(act["path"] + "#older-mtime", 0) + 1
         return (tuple(sorted(versions.items())), tuple(cache))
     key = cache_key(cfg, act)
     path = source_path(cfg, act)
@@ -260,7 +267,7 @@ def model_step(cfg: dict[str, Any], state: Any, act: dict[str, Any]) -> Any:
 
 
 def init_state(cfg: dict[str, Any]) -> Any:
-    paths = ["a", "b"] + (["u1/a", "u1/b", "u2/a", "u2/b"] if cfg["kind"] == "ns" else [])
+    paths = ["a", "b"] + (["u1/a", "u1/b", "u2/a", "u2/b", "0/a", "0/b"] if cfg["kind"] == "ns" else [])
     return (tuple(sorted((p, 0) for p in paths)), ())
 
 
@@ -270,8 +277,12 @@ def alphabet(cfg: dict[str, Any], tier: str) -> list[dict[str, Any]]:
     lean = tier == "quick" and (cfg["capacity"] >= 3 or cfg["kind"] == "fs")
     if cfg["namespaced"]:
         nss: list[Optional[str]] = [None, "kw:u1", "ctx:u1", "both:u1", "kw:u2"]
+        if cfg["kind"] == "ns":
+            nss.append("kw:0")
         if lean:
             nss = [None, "kw:u1", "both:u1", "kw:u2"] if cfg["kind"] != "fs" else [None, "kw:u1", "both:u1"]
+            if cfg["kind"] == "ns":
+                nss.append("kw:0")
     else:
         nss = [None, "kw:u1"] if tier != "quick" else [None]
     globs: list[Any] = [None, {"g": 1}] + ([{"g": 2}] if tier != "quick" else [])
@@ -287,6 +298,9 @@ def alphabet(cfg: dict[str, Any], tier: str) -> list[dict[str, Any]]:
         acts.append({"op": "get", "name": "missing", "ns": nss[-1], "how": how, "globals": None})
     if cfg["kind"] in ("fs", "ns"):
         acts.append({"op": "edit", "path": "a"})
+        if cfg["kind"] == "fs":
+            # the new content carries an OLDER modification time (restored from a backup, cp -p, rsync -t)
+            acts.append({"op": "edit", "path": "a", "backwards": True})
         if cfg["kind"] == "ns" and cfg["namespaced"]:
             acts.append({"op": "edit", "path": "u1/a"})
     return acts
@@ -343,7 +357,7 @@ def brief(acts: list[dict[str, Any]]) -> str:
     out = []
     for a in acts:
         if a["op"] == "edit":
-            out.append(f"edit({a['path']})")
+            out.append(f"edit({a['path']}{',older-mtime' if a.get('backwards') else ''})")
         else:
             g = "" if a.get("globals") is None else f",g={a['globals']['g']}"
             ns = "" if not a.get("ns") else f",{a['ns']}"
